@@ -1,5 +1,6 @@
 import WhatIs.Base.Bytes
 import WhatIs.Base.Info
+import WhatIs.Gen.RpmFacts
 /-
   Model/Rpm.lean — mirror of `RPMFile` (internal/file/parsers.go), `rpmSignatureAttributes` (internal/file/rpm.go)
   and `gpgAlgorithmName` (internal/file/pgp.go) on the package as go-rpm decodes it (oracle): two headers of
@@ -78,11 +79,16 @@ def sigChildren (p : Pkg) : List Info :=
       let b := bytesByTag p.sig t
       if b.isEmpty then none else some (Info.mk (sb "Legacy signature (RPM v3)") (sigAttrs (p.parseSig b)) []))
 
-/-- the signature header is recognised when its first entry is RPMTAG_HEADERSIGNATURES (62) -/
-def sigHeaderRecognised (p : Pkg) : Bool :=
-  match p.sig with
-  | e :: _ => e.tag = 62
-  | [] => false
+/-- whether the header after the lead is read as the signature header: always (regenerated fact
+    `Gen.rpmSigHeaderNeedsRegionTag = false`); before the repair of D74 only when its first entry was the region tag
+    RPMTAG_HEADERSIGNATURES (62), which rpm 3.x did not write -/
+def sigHeaderRecognisedB (needsRegion : Bool) (p : Pkg) : Bool :=
+  if needsRegion then
+    match p.sig with
+    | e :: _ => e.tag = 62
+    | [] => false
+  else true
+def sigHeaderRecognised (p : Pkg) : Bool := sigHeaderRecognisedB Gen.rpmSigHeaderNeedsRegionTag p
 
 /-- `RPMFile` -/
 def rpmFile (p : Pkg) : Info :=
